@@ -41,6 +41,11 @@ pub struct EnvCase {
     pub steps: Vec<StepSpec>,
     /// append two draining steps (market sell / market buy for the whole opposite volume)
     pub drain: bool,
+    /// bit (k mod 64) set: step k is QUIET - no getter of the environment or of its live books is called around
+    /// its submissions or after it, except the order / trade lists and the clock (needed to resolve references
+    /// and to infer the schedule); state that a read would refresh stays as the step left it
+    #[serde(default)]
+    pub quiet_steps: u64,
     /// large volumes with exact accounting: at most one volume-adding instruction per step (so what it will
     /// trade is known at submission), volumes bounded by what rests / was traded, not by what was ever created
     #[serde(default)]
@@ -65,6 +70,7 @@ pub struct EnvOracles {
 
 #[derive(Clone, Debug, Default)]
 pub struct EnvFeatures {
+    pub quiet_steps: u64,
     pub steps: u64,
     pub instructions: u64,
     pub skipped_instr: u64,
@@ -294,8 +300,15 @@ fn run_inner(case: &EnvCase, orc: EnvOracles, prop: &str, feat: &mut EnvFeatures
     let total_instr: usize = steps.iter().map(|s| s.instrs.len()).sum::<usize>() + 8;
     let mut instr_seen = 0usize;
 
+    let orc_all = orc;
     for (si, spec) in steps.iter().enumerate() {
         let is_drain = si >= n_core;
+        let q = !is_drain && si + 1 < n_core && (case.quiet_steps >> (si % 64)) & 1 == 1;
+        // a quiet step keeps only the schedule inference (it reads order / trade lists and the clock)
+        let orc = if q { EnvOracles { schedule: orc_all.schedule, ..EnvOracles::default() } } else { orc_all };
+        if q {
+            feat.quiet_steps += 1;
+        }
         let start = env.time();
         if let Some(on) = spec.toggle {
             if on {
@@ -549,7 +562,7 @@ fn run_inner(case: &EnvCase, orc: EnvOracles, prop: &str, feat: &mut EnvFeatures
         feat.steps += 1;
         if let Some((t, r)) = twin.as_mut() {
             t.step(r);
-            let (a, b) = (env_obs(env.as_ref()), env_obs(t.as_ref()));
+            let (a, b) = if q { (env_obs(t.as_ref()), env_obs(t.as_ref())) } else { (env_obs(env.as_ref()), env_obs(t.as_ref())) };
             if a != b {
                 return Err(fail("C12 rejected creation influenced later steps", si, "environment differs from a twin that never received the rejected creations".to_string()));
             }
@@ -575,7 +588,18 @@ fn run_inner(case: &EnvCase, orc: EnvOracles, prop: &str, feat: &mut EnvFeatures
                 }
             }
         }
-        let post_books: Vec<Obs> = (0..n).map(|a| capture(env.book(a))).collect();
+        let post_books: Vec<Obs> = (0..n)
+            .map(|a| {
+                if q {
+                    let b = env.book(a);
+                    let orders = b.orders();
+                    let views = crate::obs::recompute_views(&orders, case.ticks[a], case.levels);
+                    Obs { time: b.get_time(), trade_vol: b.get_trade_vol(), orders, trades: b.trades(), views }
+                } else {
+                    capture(env.book(a))
+                }
+            })
+            .collect();
         for a in 0..n {
             let nt = post_books[a].trades.len() - trades_before[a].min(post_books[a].trades.len());
             feat.trades += nt as u64;
@@ -584,7 +608,7 @@ fn run_inner(case: &EnvCase, orc: EnvOracles, prop: &str, feat: &mut EnvFeatures
             }
         }
         feat.assets_active = feat.assets_active.max(post_books.iter().filter(|b| b.orders.iter().any(|o| o.status == St::Active)).count());
-        if orc.schedule || orc.records {
+        if (orc.schedule || orc.records) && !q {
             for a in 0..n {
                 let new_tr = &post_books[a].trades[trades_before[a].min(post_books[a].trades.len())..];
                 let sum: u64 = new_tr.iter().map(|t| t.vol as u64).sum();
@@ -710,7 +734,7 @@ fn run_inner(case: &EnvCase, orc: EnvOracles, prop: &str, feat: &mut EnvFeatures
 
         // ---- C14 at environment level: every per-asset query of the environment returns that
         // asset's own values (the live books were just shown equal to the stand-alone books)
-        if orc.schedule && prop == "C14" {
+        if orc.schedule && prop == "C14" && !q {
             for a in 0..n {
                 let p = &post_books[a];
                 if env.cached_l2(a) != p.views.l2 {
